@@ -551,6 +551,7 @@ def run(ctx):
     run_floats(ctx)
     run_binaryish(ctx)
     run_windowed(ctx)
+    run_decimal_cols(ctx)
 
 
 def scalar_value(rng):
@@ -742,6 +743,7 @@ def run_like(ctx):
     from sqlobject.converters import sqlrepr
     args = [Q, Q * 2, Q * 3, Q + 'a', 'a' + Q, Q + 'a' + Q, Q * 2 + 'a' + Q * 2, 'a' + Q * 2 + 'b', Q + '%' + Q, '%' + Q, Q + '_',
             '\\' + Q, Q + '\\', Q + '\\' + Q, 'E' + Q, 'E' + Q * 2, 'e' + Q + 'x' + Q,
+            '{', '}', '{{', '}}', '{}', '{0}', '{escape}', '{{name}}', '{"a": 1', 'x{{', '%(x)s', '%s', '%%',
             '', 'a', '%', '_', '\\', 'ab', "x' OR '1'='1", "' --", "');--", 'A', '"', "'\n'", '\n']
     quote_heavy = [Q, Q, 'a', 'b', '%', '_', '\\', 'E', '"', ' ']
     for _ in range(ctx.budget(250, 6000)):
@@ -1543,6 +1545,98 @@ def run_windowed(ctx):
                     ctx.oracle_fail('C02:%s:windowed-select-text:%s' % (d, kind),
                                     'the %s statement with a window, %r, does not carry the literals of the statement without it, %r'
                                     % (d, text, plain), dict(desc, dialect=d))
+
+
+
+# ------------------------------------------------------------------ Decimal values through the Decimal columns' converters
+_dec = {}
+_NUMERAL = re.compile(r"[-+]?(?:\d+\.?\d*|\.\d+)(?:[eE][-+]?\d+)?")
+
+
+def dec_env():
+    if _dec:
+        return _dec
+    sqlo.setup()
+    from sqlobject import SQLObject, DecimalCol, DecimalStringCol, CurrencyCol
+    from sqlobject.sqlite.sqliteconnection import SQLiteConnection
+    log = []
+
+    class LogConn(SQLiteConnection):
+        def _executeRetry(self, conn, cursor, query):
+            log.append(query)
+            return SQLiteConnection._executeRetry(self, conn, cursor, query)
+    conn = LogConn(':memory:')
+    cls = type(sqlo.uniq('C02Dec'), (SQLObject,), {'_connection': conn,
+                                                   'd': DecimalCol(size=80, precision=40, default=None),
+                                                   'ds': DecimalStringCol(size=80, precision=40, default=None),
+                                                   'cur': CurrencyCol(default=None)})
+    cls.createTable()
+    _dec.update(conn=conn, log=log, cls=cls)
+    return _dec
+
+
+def numerals_in(sql):
+    """every decimal numeral in the statement text (inside or outside quotes), as exact Decimals"""
+    out = []
+    for m in _NUMERAL.finditer(sql):
+        try:
+            out.append(decimal.Decimal(m.group(0)))
+        except decimal.InvalidOperation:
+            pass
+    return out
+
+
+def run_decimal_cols(ctx):
+    """a Decimal (or numeric string) given to a DecimalCol / DecimalStringCol / CurrencyCol reaches INSERT, UPDATE,
+    `q.col == v` and selectBy as a literal of EXACTLY that number, whatever its number of digits (the column's converters
+    sit between the value and sqlrepr); a DecimalStringCol also stores and finds it exactly on the real SQLite"""
+    e = dec_env()
+    rng = ctx.rng
+    conn, log, cls = e['conn'], e['log'], e['cls']
+    vals = ['123456789012345678901.234567890123456789', '0.1', '-0.000000000000000000000000000000000001', '1' + '0' * 40,
+            '9' * 29, '9' * 28 + '.9', '1.' + '0' * 30 + '1', '-' + '7' * 35 + '.5', '12345678901234567890123456789', '1E+30', '1.5',
+            '79228162514264337593543950336', '0.' + '3' * 33]
+    for _ in range(ctx.budget(40, 2000)):
+        nd = rng.choice([5, 20, 27, 28, 29, 30, 34, 45])
+        digits = ''.join(rng.choice('0123456789') for _ in range(nd)).lstrip('0') or '1'
+        p = rng.randint(0, len(digits))
+        vals.append(('-' if rng.random() < 0.3 else '') + (digits[:p] or '0') + ('.' + digits[p:] if p < len(digits) else ''))
+    for i, s in enumerate(vals):
+        v = decimal.Decimal(s)
+        for col in ('d', 'ds', 'cur'):
+            for given in (v, s):
+                ctx.case(('deccol', col, s, type(given).__name__), kind='decimal-column:' + col)
+                stmts = []
+                try:
+                    del log[:]
+                    row = cls(**{col: given})
+                    stmts.append(('INSERT', log[0]))
+                    del log[:]
+                    setattr(row, col, given)
+                    stmts.append(('UPDATE', log[0]))
+                    del log[:]
+                    found = [o.id for o in cls.select(getattr(cls.q, col) == given)]
+                    stmts.append(('WHERE q.col == v', log[0]))
+                    del log[:]
+                    found2 = [o.id for o in cls.selectBy(**{col: given})]
+                    stmts.append(('selectBy', log[0]))
+                except Exception as ex:
+                    ctx.count('decimal-column: refused (%s)' % type(ex).__name__)
+                    continue
+                desc = {'column': col, 'value': s, 'given_as': type(given).__name__}
+                for what, sql in stmts:
+                    if v not in numerals_in(sql):
+                        ctx.oracle_fail('C02:sqlite:decimal-column-%s:digits=%d' % (col, len(v.as_tuple().digits)),
+                                        '%s of the %s value %s (given as %s) through a %s column: the statement %r does not contain that number'
+                                        % (what, 'Decimal', s, type(given).__name__, {'d': 'DecimalCol', 'ds': 'DecimalStringCol', 'cur': 'CurrencyCol'}[col], sql),
+                                        dict(desc, statement=sql))
+                        break
+                if col == 'ds':
+                    raw_v = conn.queryAll('SELECT ds FROM %s WHERE id = %d' % (cls.sqlmeta.table, row.id))[0][0]
+                    if decimal.Decimal(raw_v) != v or row.id not in found or row.id not in found2:
+                        ctx.oracle_fail('C02:sqlite:decimal-string-column-roundtrip:digits=%d' % len(v.as_tuple().digits),
+                                        'DecimalStringCol: %s is stored as %r; found by ==: %r, by selectBy: %r'
+                                        % (s, raw_v, row.id in found, row.id in found2), desc)
 
 
 def replay(case):
